@@ -109,41 +109,51 @@ Definition can_fuse (st : state) (a b : nat) (k : nat) : bool :=
 Definition between_ok (m : nmap) (shared : list nat) (c : nat) : bool :=
   match shared with [] => false | _ => forallb (fun q => opt_is (lookup m q) c) shared end.
 
-(* parent = l (the earlier gate), child = r is appended to it *)
-Definition merge_right (st : state) (l r : nat) : state :=
+(* parent = l (the earlier gate), child = r is appended to it.
+   shared = self.qubit_set & gate.qubit_set ; rest = child.qubit_set - shared *)
+Definition mr_parent (st : state) (l r : nat) : node :=
   let L := getn st l in
   let R := getn st r in
   let shared := sinter (nqs L) (nqs R) in
   let rest := sdiff (nqs R) shared in
-  let newL := mkNode (sunion (nqs L) (nqs R)) (ngates L ++ ngates R) (nmarked L)
+  mkNode (sunion (nqs L) (nqs R)) (ngates L ++ ngates R) (nmarked L)
       (mupd (nleft L) rest (fun q => put_or (lookup (nleft R) q) Keep))
       (mupd (mupd (nright L) shared (fun q => put_or (lookup (nright R) q) Del))
-            rest (fun q => put_or (lookup (nright R) q) Keep)) in
-  let newR := mkNode (nqs R) (ngates R) true (nleft R) (nright R) in
-  mapi (fun j nd =>
-          if j =? l then newL else if j =? r then newR else
-          mkNode (nqs nd) (ngates nd) (nmarked nd)
-            (mupd (nleft nd) (nqs R) (fun q => if opt_is (lookup (nright R) q) j then Put l else Keep))
-            (mupd (nright nd) rest (fun q => if opt_is (lookup (nleft R) q) j then Put l else Keep)))
-       st.
+            rest (fun q => put_or (lookup (nright R) q) Keep)).
+Definition absorb (nd : node) : node := mkNode (nqs nd) (ngates nd) true (nleft nd) (nright nd).
+Definition mr_other (st : state) (l r : nat) (j : nat) (nd : node) : node :=
+  let L := getn st l in
+  let R := getn st r in
+  let shared := sinter (nqs L) (nqs R) in
+  let rest := sdiff (nqs R) shared in
+  mkNode (nqs nd) (ngates nd) (nmarked nd)
+    (mupd (nleft nd) (nqs R) (fun q => if opt_is (lookup (nright R) q) j then Put l else Keep))
+    (mupd (nright nd) rest (fun q => if opt_is (lookup (nleft R) q) j then Put l else Keep)).
+Definition merge_right (st : state) (l r : nat) : state :=
+  mapi (fun j nd => if j =? l then mr_parent st l r else if j =? r then absorb (getn st r)
+                    else mr_other st l r j nd) st.
 
-(* parent = r (the later gate), child = l is prepended to it *)
-Definition merge_left (st : state) (l r : nat) : state :=
+(* parent = r (the later gate), child = l is prepended to it ; rest = child.qubit_set - shared *)
+Definition ml_parent (st : state) (l r : nat) : node :=
   let L := getn st l in
   let R := getn st r in
   let shared := sinter (nqs L) (nqs R) in
   let rest := sdiff (nqs L) shared in
-  let newR := mkNode (sunion (nqs R) (nqs L)) (ngates L ++ ngates R) (nmarked R)
+  mkNode (sunion (nqs R) (nqs L)) (ngates L ++ ngates R) (nmarked R)
       (mupd (mupd (nleft R) shared (fun q => put_or (lookup (nleft L) q) Keep))
             rest (fun q => put_or (lookup (nleft L) q) Keep))
-      (mupd (nright R) rest (fun q => put_or (lookup (nright L) q) Keep)) in
-  let newL := mkNode (nqs L) (ngates L) true (nleft L) (nright L) in
-  mapi (fun j nd =>
-          if j =? r then newR else if j =? l then newL else
-          mkNode (nqs nd) (ngates nd) (nmarked nd)
-            (mupd (nleft nd) rest (fun q => if opt_is (lookup (nright L) q) j then Put r else Keep))
-            (mupd (nright nd) (nqs L) (fun q => if opt_is (lookup (nleft L) q) j then Put r else Keep)))
-       st.
+      (mupd (nright R) rest (fun q => put_or (lookup (nright L) q) Keep)).
+Definition ml_other (st : state) (l r : nat) (j : nat) (nd : node) : node :=
+  let L := getn st l in
+  let R := getn st r in
+  let shared := sinter (nqs L) (nqs R) in
+  let rest := sdiff (nqs L) shared in
+  mkNode (nqs nd) (ngates nd) (nmarked nd)
+    (mupd (nleft nd) rest (fun q => if opt_is (lookup (nright L) q) j then Put r else Keep))
+    (mupd (nright nd) (nqs L) (fun q => if opt_is (lookup (nleft L) q) j then Put r else Keep)).
+Definition merge_left (st : state) (l r : nat) : state :=
+  mapi (fun j nd => if j =? r then ml_parent st l r else if j =? l then absorb (getn st l)
+                    else ml_other st l r j nd) st.
 
 (* FusedGate.fuse with self = node l, gate = node r *)
 Definition fuse_pair (st : state) (l r : nat) : state :=
